@@ -84,6 +84,8 @@ def match_known(prop, plan_min, v, known):
             continue
         if "recipe_contains" in m and not all(x in jdump(plan_min["objects"]) for x in m["recipe_contains"]):
             continue
+        if "explain" in m and not getattr(get_machine(prop), "explain_" + m["explain"])(plan_min, v):
+            continue
         return k
     return None
 
